@@ -32,18 +32,19 @@ type c08Out struct {
 }
 
 type c08World struct {
-	tc      *twoChain
-	denoms  []string
-	pending []*pendingDeposit // emitted on L1, not yet finalized on L2
-	relayed []*pendingDeposit // already finalized (for duplicate deliveries)
-	wds     []*c08Wd
-	outs    []*c08Out
-	l2Block uint64
-	log     []string
-	refunds int
-	userWds int
-	deletes int
-	initial map[string]math.Int
+	unclaimable string // set when L2 recorded a withdrawal that the commitment format cannot express
+	tc          *twoChain
+	denoms      []string
+	pending     []*pendingDeposit // emitted on L1, not yet finalized on L2
+	relayed     []*pendingDeposit // already finalized (for duplicate deliveries)
+	wds         []*c08Wd
+	outs        []*c08Out
+	l2Block     uint64
+	log         []string
+	refunds     int
+	userWds     int
+	deletes     int
+	initial     map[string]math.Int
 }
 
 func (w *c08World) logf(f string, a ...interface{}) { w.log = append(w.log, fmt.Sprintf(f, a...)) }
@@ -101,7 +102,9 @@ func (w *c08World) relayOne(p *pendingDeposit) henv.Result {
 func (w *c08World) record(x l2Withdrawal, kind string) {
 	t, ok := w.tc.leafOf(x)
 	if !ok {
-		panic("amount outside the commitment format: excluded by construction in C08")
+		// (single deposits are bounded by L1; balances add up, and L2 has to refuse what cannot be committed)
+		w.unclaimable = fmt.Sprintf("L2 recorded a %s withdrawal #%d of %s%s: the amount does not fit the 64-bit commitment format, it can never be paid on L1 and the escrow keeps coins that no L2 token stands for", kind, x.Seq, x.Amount, x.Denom)
+		return
 	}
 	w.wds = append(w.wds, &c08Wd{ev: x, t: t})
 	if kind == "refund" {
@@ -198,6 +201,7 @@ func TestC08Rapid(t *testing.T) {
 				if rapid.IntRange(0, 14).Draw(rt, "zeroAmt") == 0 {
 					amt = 0 // L1 accepts deposits of nothing (they carry a hook or create the account)
 				}
+				huge := rapid.IntRange(0, 11).Draw(rt, "hugeAmt") == 0
 				if hk := rapid.IntRange(0, 12).Draw(rt, "hook"); hk < 9 && to == recipient.Str {
 					num, seq := accInfo(tc.l2, recipient)
 					l2d := tcL2Denom(tc, d)
@@ -234,8 +238,16 @@ func TestC08Rapid(t *testing.T) {
 					}
 					data = signTx(tc.l2, msgs, []cryptotypes.PrivKey{recipient.Priv}, []uint64{num}, []uint64{seq}, henv.L2ChainID)
 				}
-				r, p := tc.l1Deposit(from, to, coinOf(d, amt), data)
-				w.logf("L1 deposit %d%s from %s to %q %s -> %v", amt, d, short(from.Str), truncStr(to, 16), kind, r.Err)
+				coin := coinOf(d, amt)
+				if huge && data == nil {
+					// 2^63 + k units: above the signed 64-bit range, inside the 64 bits the commitment format has
+					coin = sdk.NewCoin(d, math.NewIntFromUint64(1<<63+uint64(amt)))
+					tc.l1.Fund(from.Addr, coin)
+					w.initial[d] = w.initial[d].Add(coin.Amount)
+					c.Class("deposit-of-2^63-or-more")
+				}
+				r, p := tc.l1Deposit(from, to, coin, data)
+				w.logf("L1 deposit %s from %s to %q %s -> %v", coin, short(from.Str), truncStr(to, 16), kind, r.Err)
 				if p != nil {
 					w.pending = append(w.pending, p)
 				}
@@ -250,6 +262,9 @@ func TestC08Rapid(t *testing.T) {
 				}
 				if resp, ok := r.Resp.(*opchildtypes.MsgFinalizeTokenDepositResponse); ok && resp.Result == opchildtypes.NOOP {
 					fail(i, fmt.Errorf("faithful in-order relay of deposit #%d was answered NOOP (nothing minted, nothing refunded): the deposit is lost", p.Seq))
+				}
+				if w.unclaimable != "" {
+					fail(i, fmt.Errorf("%s", w.unclaimable))
 				}
 				w.pending = w.pending[1:]
 				w.relayed = append(w.relayed, p)
@@ -291,8 +306,8 @@ func TestC08Rapid(t *testing.T) {
 					return
 				}
 				amt := math.NewInt(int64(rapid.IntRange(1, 50000).Draw(rt, "wamt")))
-				if amt.GT(bal) {
-					amt = bal
+				if amt.GT(bal) || rapid.IntRange(0, 5).Draw(rt, "wholeBalance") == 0 {
+					amt = bal // everything the account holds, at once
 				}
 				to := tc.users[rapid.IntRange(0, 4).Draw(rt, "wto")].Str
 				if rapid.IntRange(0, 4).Draw(rt, "upper") == 0 {
@@ -305,6 +320,9 @@ func TestC08Rapid(t *testing.T) {
 					}
 				}
 				w.logf("L2 withdraw %s%s by %s to %s -> %v", amt, d, short(u.Str), short(to), r.Err)
+				if w.unclaimable != "" {
+					fail(i, fmt.Errorf("%s", w.unclaimable))
+				}
 			case "transfer":
 				a, b := tc.users[rapid.IntRange(0, 4).Draw(rt, "ta")], tc.users[rapid.IntRange(0, 4).Draw(rt, "tb")]
 				d := tcL2Denom(tc, rapid.SampledFrom(w.denoms).Draw(rt, "tdenom"))
